@@ -45,17 +45,25 @@ class LoopView:
         self.ip, self.frame, self.env, self.heap, self.env0, self.heap0, self.k = ip, frame, env, heap, env0, heap0, k
         self.ctx = ip.ctx
 
+    def _get(self, env, name):
+        if name not in env:
+            # a loop specification is anchored to the locals of the code it was written for: a renamed or removed local
+            # makes the clause unstatable, which is "undecided" (bounded stand-ins take over), never a violation
+            from .interp import OutOfReach
+            raise OutOfReach(f'{self.frame.qual}: the local `{name}` a loop specification is anchored to does not exist')
+        return env[name]
+
     def v(self, name):
-        return norm(self.ip, self.env[name])
+        return norm(self.ip, self._get(self.env, name))
 
     def v0(self, name):
-        return norm(self.ip, self.env0[name])
+        return norm(self.ip, self._get(self.env0, name))
 
     def has(self, name):
         return name in self.env
 
     def term(self, name):
-        return self.ctx.to_term(self.env[name])
+        return self.ctx.to_term(self._get(self.env, name))
 
     def int(self, name):
         from .models_ops import int_term
